@@ -1,0 +1,21 @@
+//! Verification-only re-exports (compiled only with `--cfg mp4_verif`).
+//!
+//! Several box and table-entry types are `pub` but live in `pub(crate)`
+//! modules, so code outside the crate cannot name them.  External
+//! verification harnesses need to construct and compare them; this module
+//! re-exports them without changing any behaviour.
+
+pub use crate::mp4box::avc1::{AvcCBox, NalUnit};
+pub use crate::mp4box::ctts::CttsEntry;
+pub use crate::mp4box::dinf::{DrefBox, UrlBox};
+pub use crate::mp4box::elst::ElstEntry;
+pub use crate::mp4box::hev1::{HvcCArray, HvcCArrayNalu, HvcCBox};
+pub use crate::mp4box::ilst::IlstItemBox;
+pub use crate::mp4box::mp4a::{
+    DecoderConfigDescriptor, DecoderSpecificDescriptor, ESDescriptor, EsdsBox, SLConfigDescriptor,
+};
+pub use crate::mp4box::stsc::StscEntry;
+pub use crate::mp4box::stts::SttsEntry;
+pub use crate::mp4box::tkhd::Matrix;
+pub use crate::mp4box::tx3g::RgbaColor;
+pub use crate::mp4box::vmhd::RgbColor;
